@@ -612,6 +612,7 @@ def run(ctx):
     r0, ok, why = r0_parse(ctx)
     if not ok and not r0.violations:
         r0.inst("evaluation not available", "the parser could not be evaluated abstractly (%s): the tiling analysis (R1/R2) and the structural reducer rule (R3) decide alone" % str(why)[:160])
+        r0.viol("R0:undecided", "the evaluation cannot interpret the current code (%s): the clauses it decides are NOT decided on this tree; the structural rules reported alongside only cover part of them (fail closed)" % str(why)[:300])
         r0.floor = 1
     rules = [r0, offsets.rule_partition(ctx)]
     if not ok or os.environ.get("VERIF_FORCE_FALLBACK"):
